@@ -55,8 +55,9 @@ struct Slot
 
 struct World
 {
-    Slot slot;
+    Slot slot, inner; // inner: resolver / rejection of a promise that a continuation returned while still pending
     std::unique_ptr<Async::Promise<int>> p, d;
+    std::unique_ptr<Async::Promise<void>> pv;
     // per-continuation logs; written by whichever thread runs the continuation, read after join
     struct Log
     {
@@ -79,8 +80,12 @@ static const char* kScenarioNames[] = {
     "reject p || then on derived(rethrow) created before",
     "resolve || then k1 || then k2",
     "resolve p || then on derived of derived created before",
+    "resolve void promise || then",
+    "reject void promise || then",
+    "reject the pending promise a continuation returned || then on the derived promise",
+    "resolve the pending promise a continuation returned || then on the derived promise",
 };
-static const int kNScenarios = 9;
+static const int kNScenarios = 13;
 
 static std::string what(std::exception_ptr e)
 {
@@ -105,8 +110,14 @@ static void settle_thread(void* a)
     World* w = static_cast<World*>(a);
     try
     {
-        if (w->scenario == 2 || w->scenario == 6)
+        if (w->scenario == 2 || w->scenario == 6 || w->scenario == 10)
             (*w->slot.rej)(std::runtime_error("boom"));
+        else if (w->scenario == 9)
+            (*w->slot.res)();
+        else if (w->scenario == 11)
+            (*w->inner.rej)(std::runtime_error("boom"));
+        else if (w->scenario == 12)
+            (*w->inner.res)(7);
         else
             (*w->slot.res)(5);
     }
@@ -142,7 +153,14 @@ static void attach_thread(void* a)
         case 5:
         case 6:
         case 8:
+        case 11:
+        case 12:
             attach_to<0>(w, *w->d);
+            break;
+        case 9:
+        case 10:
+            w->pv->then([w]() { w->k[0].runs++; w->k[0].val = 1; },
+                        [w](std::exception_ptr e) { w->k[0].rejs++; w->k[0].exc = what(e); });
             break;
         case 4: {
             auto d = w->p->then([](int v) { return v + 1; }, Async::Throw);
@@ -194,6 +212,29 @@ static void run_case(uint64_t idx, vr::Ctx& ctx)
         }));
         switch (c.scenario)
         {
+        case 9:
+        case 10:
+            w->pv.reset(new Async::Promise<void>([&](Async::Resolver& r, Async::Rejection& j) {
+                w->slot.res.reset(new Async::Resolver(std::move(r)));
+                w->slot.rej.reset(new Async::Rejection(std::move(j)));
+            }));
+            break;
+        case 11:
+        case 12: {
+            // the continuation returns a promise that is still pending; p is fulfilled right here, so the race is
+            // between settling that inner promise and attaching to the derived one
+            World* ww = w;
+            w->d.reset(new Async::Promise<int>(w->p->then(
+                [ww](int) {
+                    return Async::Promise<int>([ww](Async::Resolver& r, Async::Rejection& j) {
+                        ww->inner.res.reset(new Async::Resolver(std::move(r)));
+                        ww->inner.rej.reset(new Async::Rejection(std::move(j)));
+                    });
+                },
+                Async::Throw)));
+            (*w->slot.res)(5);
+            break;
+        }
         case 3:
             w->d.reset(new Async::Promise<int>(w->p->then([](int v) { return v + 1; }, Async::Throw)));
             break;
@@ -226,8 +267,8 @@ static void run_case(uint64_t idx, vr::Ctx& ctx)
             ctx.violation(std::string("c12:") + (x.deadlock ? "deadlock" : "horizon") + ":" + kScenarioNames[c.scenario], detail("\"x\":0"));
         else
         {
-            int expectVal[] = { 5, 5, 0, 6, 6, 10, 0, 5, 16 };
-            bool rejecting  = c.scenario == 2 || c.scenario == 6;
+            int expectVal[] = { 5, 5, 0, 6, 6, 10, 0, 5, 16, 1, 0, 0, 7 };
+            bool rejecting  = c.scenario == 2 || c.scenario == 6 || c.scenario == 10 || c.scenario == 11;
             int nconts      = (c.scenario == 1 || c.scenario == 7) ? 2 : 1;
             for (int t = 0; t < 3; ++t)
                 if (!w->threw[t].empty())
